@@ -25,6 +25,8 @@ QUICK = [c for c in c04.QUICK if c[2] is None] + [
     ('plant_win_empty', dict(T=3, fuel=True, win=(5, 7)), None, 'B'),
     ('windows_gap', dict(T=4), None, 'B'),
     ('plant_dict_costs', dict(T=3, fuel=True, start_costs='dict'), None, 'B'),
+    ('split_orderbook_last', dict(T=4, ob_last=True, orders=((0, 1, 2.0), (2, 4, -1.5), (3, 4, 1.0))), '2h', 'A'),
+    ('split_two_node', dict(T=4, freq='12h', unit='h', wacc=True), 'd', 'A'),
     ('orderbook_all_outside', dict(T=3, orders=((-3, -1, 1.0), (5, 7, 1.0))), None, 'B'),
 ]
 THOROUGH = QUICK + [c for c in c04.THOROUGH if c[2] is None and c not in c04.QUICK] + [
@@ -37,7 +39,7 @@ SHAPE_OF = dict(c04.SHAPE_OF, plant_dict_costs='plant', names_collide='names', n
                 contract_storage_msd='contract_storage')
 BOUNDS = dict(quick='shapes %s, T<=8 (12 for the colliding-names shape)' % [c[0] for c in QUICK],
               thorough='shapes %s' % [c[0] for c in THOROUGH])
-OUTSIDE = ['split / SLP problems (their mapping is checked in C14 / C17)']
+OUTSIDE = ['SLP problems (their mapping is checked in C17)']
 
 
 def cases(tier, seed):
@@ -95,8 +97,37 @@ def structural(rec, tag, op, T, env_pt):
     (_ok if not nan else lambda r, nm: _fail(r, nm, dict(kind='nan', tag=tag, env=env_pt)))(rec, tag + '/no_nan')
 
 
+def run_split(rec, seed, shape, kw, split, level):
+    """split problems: the global mapping must describe the concatenated interval problems (structure shared with C14)"""
+    from . import c14
+    res = scen.explore(shape, kw, split=split, level=level, with_output=False)
+    rec.paths = len(res)
+    for pi, (path, D) in enumerate(res):
+        P = 'p%d' % pi
+        if path.exc is not None:
+            if common.is_rejection(path.exc):
+                rec.rejected_paths += 1
+                continue
+            common.crash_candidate(rec, P + '/crash', path, D)
+            continue
+        sc = path.result
+        ivs = c14.interval_steps(sc.sh.tg, split)
+        ok, why = c14.split_mapping_check(sc, sc.sh.tg, ivs)
+        nm = P + '/split_mapping'
+        rec.obligations.append(dict(name=nm, verdict='unsat' if ok else 'sat', secs=0, form='Q2'))
+        rec.distinct.add(nm)
+        if not ok:
+            env = common.generic_point(list(D.pre) + path.pc, D.names, seed) or {}
+            rec.candidates.append(dict(name=nm, env=env, info=dict(kind='mapping', why=why), form='struct'))
+        for k_, op in enumerate(sc.ops):
+            structural(rec, P + '/interval%d/portfolio' % k_, op, len(ivs[k_]) if k_ < len(ivs) else sc.sh.tg.T, {})
+    return rec.result()
+
+
 def run_case(case_id, tier, seed, shape, kw, split, level):
     rec = lpsem.Rec(PROP, case_id)
+    if split is not None:
+        return run_split(rec, seed, shape, kw, split, level)
     res = scen.explore(shape, kw, split=None, level=level, with_output=False)
     rec.paths = len(res)
     validated = False
@@ -235,6 +266,9 @@ def run_case(case_id, tier, seed, shape, kw, split, level):
 
 
 def observe(case, kwargs, env, rq):
+    if kwargs.get('split') is not None:
+        from . import c14
+        return c14.observe(case, dict(kwargs, coupled=False), env, rq)
     kwargs = dict(kwargs, with_output=False)
     D = lift.Domain(theta=env)
     sc = scen.run(D, kwargs['shape'], kwargs.get('kw'), None, False, env=env)
@@ -253,6 +287,9 @@ def judge(case, kwargs, cand, ans):
         return (True, 'raises on an in-domain input: ' + ans['error'][:200]) if 'error' in ans else (False, 'no exception')
     if 'error' in ans:
         return None, ans['error']
+    if info.get('kind') == 'mapping':
+        from . import c14
+        return c14.judge(case, kwargs, cand, ans)
     o = ans['obs']
     p = o['problem']
     n = len(p['c'])
